@@ -491,6 +491,8 @@ def main(tier):
     rule_D(ck, units)
     rule_E(ck, units)
     rule_F(ck, units)
+    import c11
+    c11.rule_I(ck, units, floor=4, only=('amgcl/io/',))    # row_beg / row_end = -1 mean 'whole file'; an empty range [k, 0) is not the whole file (shared with C11)
     ck.assumptions += ['the round trip itself and row-range slices being equal to the full read are not decided',
                        'allocation sizes and loop bounds taken from the file fail by exception (length_error / bad_alloc / unexpected eof) and are not treated as sinks']
     return ck.finish()
